@@ -41,6 +41,9 @@ def gen_scenario(rng):
         if rng.random() < 0.2:
             ops.append("status")
     ops += ["status", "types", "dump"]
+    if rng.random() < 0.6:
+        # the marked entries must also survive compaction: fold (almost) everything into a snapshot, restore from it
+        ops += ["snapshot %d" % (ts + rng.choice([5000, 100000]) * S), "persist", "restart", "status"]
     return ops
 
 
@@ -140,10 +143,18 @@ def check(run):
             if rc == 0:
                 bad = bad or (sc, "exit", "process survived the crashing entry `%s`" % c)
         # 2. after every restart the state equals a replay of the (marked) log, and new entries keep being applied
+        empty = True      # FSM.Snapshot refuses (error, nothing changes) while the irclog copy holds no entry
         for o, g in zip(sc, gl):
             if o == "status" and "same=1" not in g:
                 bad = bad or (sc, "state", "state differs from a replay of the marked log: " + g[:200])
-            if g.startswith("panic") or g.startswith("error"):
+            if o.startswith("commit") and not o.endswith(" r"):
+                empty = False
+            if o == "reset":
+                empty = True
+            if o.startswith("snapshot") and g.startswith("ok "):
+                a, b = g.split()[1:3]
+                empty = int(a) == int(b) + 1
+            if g.startswith("panic") or (g.startswith("error") and not (o.startswith("snapshot") and empty)):
                 bad = bad or (sc, "op", "`%s` -> %s" % (o, g[:200]))
         # 3. the duplicate-detection marker advances for the skipped entry
         for o, g in zip(sc, gl):
